@@ -197,6 +197,9 @@ def w2b(ctx, rep):
     calls_flush = [bb for bb, t in wr.calls() if strip_generics(callee_def(t)).endswith("flush_whole_bytes")]
     rep.add("W2", "summary:at-most-7-bits-pending", fl in (["Ge(var(self).bits_in, K8)"], ["Gt(var(self).bits_in, K7)"]) and len(calls_flush) == 1, "%s:%s" % (fw.file, fw.line),
             "flush_whole_bytes drains while `%s`; write() ends with it" % fl)
+    from .. import inv
+    Kinv, why = inv.drain_invariant(F, P + "bit_writer::BitWriter", "bits_in", P + "bit_writer::BitWriter::flush_whole_bytes")
+    rep.add("W2", "invariant:bits_in<8-between-calls", Kinv is not None and Kinv <= 8, "%s:%s" % (fw.file, fw.line), why)
     n = 0
     for name, fb in sorted(F.bodies.items()):
         if not (name.startswith(P + "deflate_writer::") or name.startswith(P + "huffman_encoding::") or name.startswith(P + "bit_writer::BitWriter::pad")):
